@@ -35,6 +35,15 @@ pub fn decompress(
         compressed
     };
 
+    // One input byte yields at most 128 output bytes (a zero run of `byte + 1`), so a declared
+    // size beyond that cannot be real: refuse it instead of allocating it
+    if decompressed_size > data.len().saturating_mul(128) {
+        return Err(Error::compression(format!(
+            "RLE declared size {decompressed_size} cannot come from {} bytes of input",
+            data.len()
+        )));
+    }
+
     // Pre-fill with zeros
     let mut decompressed = vec![0u8; decompressed_size];
 
